@@ -83,6 +83,8 @@ def configs(tier):
         cfg = {"key": key, "fn": fn, "params": params}
         if fn == "h_cross" and "rank-deficient" not in key:
             cfg["options"] = {"full_rank": True}
+        if fn == "h_multi":
+            cfg["options"] = {"full_rank": True, "eigvalsh_psd": True, "budget_s": 120 if tier == "quick" else 900}
         out.append(cfg)
 
     shapes = [(4, 2, 2), (3, 3, 2)] if tier == "quick" else [(4, 2, 2), (3, 3, 2), (5, 3, 3), (3, 4, 2)]
@@ -130,5 +132,8 @@ def configs(tier):
         add("h_cross", "CPCCA|alpha=0.5|n5p3q3k3", cls="CPCCA", n=5, p=3, q=3, k=3, alpha=0.5, use_pca=False)
         add("h_cross", "MCARotator|power3", cls="MCA", n=4, p=2, q=2, k=2, use_pca=False, rot={"n_modes": 2, "power": 3})
         add("h_single", "EOFRotator|power3", cls="EOF", n=4, p=3, k=2, rot={"n_modes": 2, "power": 3})
-    # multi-set CCA: see DESIGN.md (dask block matrices + generalised eigh; not encoded yet)
+    # multi-set CCA (scipy eigh / eigvalsh / np.cov under contract stubs, dask block matrices executed synchronously)
+    add("h_multi", "multi.CCA|2views", n=4, ps=(2, 2), k=2)
+    if tier == "thorough":
+        add("h_multi", "multi.CCA|3views", n=5, ps=(2, 2, 2), k=2)
     return out
